@@ -26,8 +26,12 @@ Domain hypotheses, all explicit:
   **proved** for NPM, PyPI and the default system (`orderLawful_npm/pypi/default`) and not a
   hypothesis of their theorems; for Maven it is a hypothesis (finding F-C12-mvn-intrans =
   C01's F-C01-mvn-zeroq: Maven's comparison is intransitive).
-* `TagsExact l` — "latest" occurs in a tag string only as a whole tag (finding
-  F-C12-latest-substr: the code tests `strings.Contains(tags, "latest")`).
+
+"Tagged latest" (`exactLatest`): one of the comma-separated tags of the record's `Tags`
+attribute is exactly `latest` — the test the code applies since the repair of
+F-C12-latest-substr (`slices.Contains(strings.Split(tags, ","), "latest")`; it used to be
+`strings.Contains(tags, "latest")`, which also fired on `notlatest`, `latest-2`). The former
+hypothesis `TagsExact` is gone: the npm order holds as stated, for every list.
 
 All theorems have the form "if the call returns `r` (`Outcome.ok r`) then …": that
 `MatchRequirement` never panics is C04's subject, not proved here.
@@ -38,8 +42,7 @@ What is proved:
 |---|---|---|
 | (i) exactly the satisfying records | `matchReq_exact`, `matchReq_mem_iff` | full, every system |
 | (ii) ascending, default path | `sortVersions_ascending`, `matchReq_ascending_default` | full given `OrderLawful`; PyPI unconditional: `matchReq_ascending_pypi` |
-| (ii) npm order as coded (substring test) | `npm_order_as_coded`, `matchReq_npm_ordered` | full |
-| (ii) npm order as stated (tag `latest`) | `npm_order_partial`, `matchReq_npm_ordered_partial` | partial: `TagsExact`; refuted without it: `npm_order_statement_false` |
+| (ii) npm order as stated (tag `latest`) | `npm_order`, `npm_order_statement`, `matchReq_npm_ordered` | full (was partial `TagsExact` before the repair; regression: `npm_regression`) |
 | (iii) order-insensitive | `sortVersions_perm`, `matchReq_perm`; `perm_npm`, `perm_pypi`, `perm_unknown` | full |
 | (iii) Maven | `perm_maven_partial` | partial: `OrderLawful`; refuted without it: `maven_perm_statement_false` |
 | npm non-range | `matchReq_npm_nonrange` | full |
@@ -160,10 +163,8 @@ theorem sortVersions_perm {sys : RSystem} {l₁ l₂ : List RVersion} (hsys : On
 /-- `sv.IsPrerelease()` of the record's parsed npm version (false when it does not parse). -/
 def isPre (v : RVersion) : Bool := (dec .npm v).isPre
 
-/-- The test the code applies: `strings.Contains(tags, "latest")`. -/
-abbrev codeLatest (v : RVersion) : Bool := v.codeLatest
-
-/-- The test the statement means: one of the comma-separated tags is `latest`. -/
+/-- "Tagged latest": one of the comma-separated tags is `latest`. What the statement means and
+the test the code applies (`slices.Contains(strings.Split(tags, ","), "latest")`). -/
 abbrev exactLatest (v : RVersion) : Bool := v.exactLatest
 
 /-- `x` is the version tagged latest (the greatest one if several are). -/
@@ -196,9 +197,11 @@ theorem NpmOrdered.congr {f g : RVersion → Bool} {l r : List RVersion} (hfg : 
     · exact Or.inr ⟨x, lc x hx, he⟩
   | moved ys x hp hs hx hne => exact NpmOrdered.moved ys x hp hs (lc x hx) hne
 
-/-- **(ii), npm, as coded**: `sortNPMVersions` returns the npm arrangement for the reading
-"the tag string contains `latest`". Full: every list, no hypothesis. -/
-theorem npm_order_as_coded {l r : List RVersion} (h : sortNPMVersions l = .ok r) : NpmOrdered codeLatest l r := by
+/-- **(ii), npm, as the property states it**: `sortNPMVersions` returns the npm arrangement —
+ascending, the version tagged `latest` moved last unless it is a prerelease while releases
+exist. Full: every list, no hypothesis (before the repair of F-C12-latest-substr this needed
+`TagsExact`). -/
+theorem npm_order {l r : List RVersion} (h : sortNPMVersions l = .ok r) : NpmOrdered exactLatest l r := by
   unfold sortNPMVersions at h
   split at h
   · rename_i ds hds
@@ -226,7 +229,7 @@ theorem npm_order_as_coded {l r : List RVersion} (h : sortNPMVersions l = .ok r)
       · rintro ⟨h1, z, hz, h2⟩
         exact ⟨h1, dec .npm z, hall z hz, h2⟩
     have hchoice : ∀ x : DV, x ∈ ds → x.hasLatest = true →
-        (∀ y ∈ ds, y.hasLatest = true → less x y = false) → LatestChoice codeLatest l x.v := by
+        (∀ y ∈ ds, y.hasLatest = true → less x y = false) → LatestChoice exactLatest l x.v := by
       intro x hx hl hmax
       refine ⟨hmem x hx, hl, ?_⟩
       intro y hy hly
@@ -255,20 +258,14 @@ theorem npm_order_as_coded {l r : List RVersion} (h : sortNPMVersions l = .ok r)
   · cases h
   · cases h
 
-/-- **Hypothesis `TagsExact`** (removed by finding F-C12-latest-substr): "latest" occurs in a tag
-string only as a whole tag. -/
-def TagsExact (l : List RVersion) : Prop := ∀ v ∈ l, codeLatest v = exactLatest v
-
 /-- (ii) for npm **as the property states it** ("the version tagged latest"). -/
 def NpmOrderStatement : Prop :=
   ∀ l r, DistinctStrings l → sortNPMVersions l = .ok r → NpmOrdered exactLatest l r
 
-/-- The strongest version that holds: the statement under `TagsExact`. -/
-theorem npm_order_partial {l r : List RVersion} (ht : TagsExact l) (h : sortNPMVersions l = .ok r) :
-    NpmOrdered exactLatest l r :=
-  (npm_order_as_coded h).congr ht
+/-- The statement holds (it was refuted before the repair: `strings.Contains`). -/
+theorem npm_order_statement : NpmOrderStatement := fun _ _ _ h => npm_order h
 
-/-! ### refutation of the npm statement: `[1.0.0 #notlatest, 2.0.0]` -/
+/-! ### regression of F-C12-latest-substr (fixed): `[1.0.0 #notlatest, 2.0.0]` and other look-alikes -/
 
 def mkv (sys : RSystem) (s : String) (tags : Option String := none) : RVersion :=
   { key := { pk := { sys := sys, name := [112] }, vtype := .concrete, version := s.toUTF8.toList },
@@ -280,12 +277,17 @@ def mkreq (sys : RSystem) (s : String) : VersionKey :=
 def w1 : RVersion := mkv .npm "1.0.0" (some "notlatest")
 def w2 : RVersion := mkv .npm "2.0.0"
 
-/-- What the model (and the code: known finding witness) returns. -/
-theorem npm_witness : sortNPMVersions [w1, w2] = .ok [w2, w1] ∧
-    matchReq (mkreq .npm "*") [w1, w2] = .ok [w2, w1] := by
+/-- What the model (and the repaired code: the fixed finding's witness is replayed on every
+run) returns on the old witness: ascending, nothing moved (it used to be `[w2, w1]`). -/
+theorem npm_regression : sortNPMVersions [w1, w2] = .ok [w1, w2] ∧
+    matchReq (mkreq .npm "*") [w1, w2] = .ok [w1, w2] := by
   constructor <;> decide +kernel
 
-/-- `[2.0.0, 1.0.0 #notlatest]` is not the stated npm arrangement of any list. -/
+/-- The old witness now satisfies the statement. -/
+example : NpmOrdered exactLatest [w1, w2] [w1, w2] := npm_order npm_regression.1
+
+/-- The pre-repair output `[2.0.0, 1.0.0 #notlatest]` is not the stated npm arrangement of any
+list: the statement rejects the old behaviour (it is not vacuous on this input). -/
 theorem npm_witness_not_ordered (l : List RVersion) : ¬ NpmOrdered exactLatest l [w2, w1] := by
   intro hr
   have nle : ¬ Le .npm w2 w1 := by unfold Le vle; decide +kernel
@@ -304,9 +306,31 @@ theorem npm_witness_not_ordered (l : List RVersion) : ¬ NpmOrdered exactLatest 
     rw [hf] at this
     cases this
 
-theorem npm_order_statement_false : ¬ NpmOrderStatement := by
-  intro h
-  exact npm_witness_not_ordered _ (h [w1, w2] [w2, w1] (by unfold DistinctStrings; decide +kernel) npm_witness.1)
+/-- `strings.Split` as modelled: `""` gives `[""]`, consecutive / leading / trailing commas give
+empty elements; and which tag strings carry the tag `latest`. -/
+example :
+    Resolve.Match.splitOn 44 [] = [[]] ∧ Resolve.Match.splitOn 44 ",,".toUTF8.toList = [[], [], []] ∧
+    Resolve.Match.splitOn 44 "a,,b,".toUTF8.toList = ["a".toUTF8.toList, [], "b".toUTF8.toList, []] ∧
+    (["latest", "latest,next", "next,latest", ",latest", "latest,", "beta,latest,next"].map
+      fun t => exactLatest (mkv .npm "1.0.0" (some t))) = [true, true, true, true, true, true] ∧
+    (["notlatest", "latest-2", "latestx", "prelatest,next", "next,latestx", "", "Latest", "lat,est", "latest "].map
+      fun t => exactLatest (mkv .npm "1.0.0" (some t))) = [false, false, false, false, false, false, false, false, false] ∧
+    exactLatest (mkv .npm "1.0.0") = false := by
+  decide +kernel
+
+/-- Look-alikes stay in ascending order and do not displace the version really tagged `latest`
+(second witness of the fixed finding: `2.0.0 #latest-2` used to be moved last instead of
+`1.0.0 #latest`). -/
+example :
+    sortNPMVersions [mkv .npm "1.0.0" (some "latest"), mkv .npm "2.0.0" (some "latest-2"), mkv .npm "3.0.0"] =
+      .ok [mkv .npm "2.0.0" (some "latest-2"), mkv .npm "3.0.0", mkv .npm "1.0.0" (some "latest")] ∧
+    sortNPMVersions [mkv .npm "4.0.0" (some "latestx"), mkv .npm "3.0.0" (some ",latest"),
+                     mkv .npm "2.0.0" (some "notlatest"), mkv .npm "1.0.0" (some "next,latest")] =
+      .ok [mkv .npm "1.0.0" (some "next,latest"), mkv .npm "2.0.0" (some "notlatest"),
+           mkv .npm "4.0.0" (some "latestx"), mkv .npm "3.0.0" (some ",latest")] ∧
+    matchReq (mkreq .npm "latest") [mkv .npm "1.0.0" (some "notlatest"), mkv .npm "2.0.0" (some "next,latest")] =
+      .ok [mkv .npm "2.0.0" (some "next,latest")] := by
+  refine ⟨?_, ?_, ?_⟩ <;> decide +kernel
 
 /-! ## `MatchRequirement` -/
 
@@ -403,21 +427,14 @@ theorem matchReq_ascending_pypi {req : VersionKey} {l r : List RVersion} {c : Se
   rw [hp] at this
   exact this
 
-/-- **(ii) npm**: the result is a filter of the npm arrangement (ascending, latest last). -/
+/-- **(ii) npm, as stated**: the result is a filter of the npm arrangement (ascending, the
+version tagged `latest` last). Full. -/
 theorem matchReq_npm_ordered {req : VersionKey} {l r : List RVersion} {c : Semver.Constraint}
     (hn : req.pk.sys = .npm) (hc : Semver.parseConstraint .npm req.version = .ok c) (h : matchReq req l = .ok r) :
-    ∃ sorted, NpmOrdered codeLatest l sorted ∧ r = sorted.filter (Sat c) := by
+    ∃ sorted, NpmOrdered exactLatest l sorted ∧ r = sorted.filter (Sat c) := by
   obtain ⟨sorted, hs, hr, _⟩ := matchReq_exact (c := c) (by rw [hn]; exact hc) h
   simp only [arrangement, hn, ↓reduceIte] at hs
-  exact ⟨sorted, npm_order_as_coded hs, hr⟩
-
-/-- (ii) npm **as stated**, for match results: partial (`TagsExact`). -/
-theorem matchReq_npm_ordered_partial {req : VersionKey} {l r : List RVersion} {c : Semver.Constraint}
-    (hn : req.pk.sys = .npm) (ht : TagsExact l) (hc : Semver.parseConstraint .npm req.version = .ok c)
-    (h : matchReq req l = .ok r) :
-    ∃ sorted, NpmOrdered exactLatest l sorted ∧ r = sorted.filter (Sat c) := by
-  obtain ⟨sorted, ho, hr⟩ := matchReq_npm_ordered hn hc h
-  exact ⟨sorted, ho.congr ht, hr⟩
+  exact ⟨sorted, npm_order hs, hr⟩
 
 /-- **npm, requirement that is not a range**: the first record, in the npm arrangement, whose
 version string or one of whose comma-separated tags equals the requirement; nothing if
@@ -533,13 +550,10 @@ theorem maven_witness_unlawful : ¬ OrderLawful .maven [m1, m2, m3] := by
   revert this
   decide +kernel
 
-/-- `OrderLawful`/`TagsExact` as evaluated by the driver (correspondence op `classify`, mirrored by
-the harness classifier): the decidable forms are the hypotheses themselves. -/
+/-- `OrderLawful` as evaluated by the driver (correspondence op `classify`, mirrored by the
+harness classifier): the decidable form is the hypothesis itself. -/
 theorem classify_sound (s : Semver.System) (l : List RVersion) :
-    (orderLawfulB s l = true ↔ OrderLawful s l) ∧
-    (tagsExactB l = true ↔ TagsExact l) := by
-  refine ⟨orderLawfulB_iff s l, ?_⟩
-  simp [TagsExact, tagsExactB, List.all_eq_true]
+    orderLawfulB s l = true ↔ OrderLawful s l := orderLawfulB_iff s l
 
 /-! ## Non-vacuity -/
 
@@ -547,16 +561,15 @@ theorem classify_sound (s : Semver.System) (l : List RVersion) :
 prerelease, an unparsable string and a `latest` tag; a proper, non-empty selection. -/
 example :
     let l := [mkv .npm "2.0.0", mkv .npm "1.0.0" (some "latest"), mkv .npm "banana", mkv .npm "3.0.0-rc.1"]
-    OneSystem .npm l ∧ DistinctStrings l ∧ TagsExact l ∧
+    OneSystem .npm l ∧ DistinctStrings l ∧
       matchReq (mkreq .npm "<2 || >=3.0.0-0") l =
         .ok [mkv .npm "3.0.0-rc.1", mkv .npm "1.0.0" (some "latest")] ∧
       sortNPMVersions l =
         .ok [mkv .npm "2.0.0", mkv .npm "3.0.0-rc.1", mkv .npm "banana", mkv .npm "1.0.0" (some "latest")] ∧
       matchReq (mkreq .npm "latest") l = .ok [mkv .npm "1.0.0" (some "latest")] := by
-  refine ⟨?_, ?_, ?_, ?_, ?_, ?_⟩
+  refine ⟨?_, ?_, ?_, ?_, ?_⟩
   · unfold OneSystem; decide +kernel
   · unfold DistinctStrings; decide +kernel
-  · unfold TagsExact; decide +kernel
   all_goals decide +kernel
 
 /-- Maven/PyPI: equal-comparing distinct spellings are ordered by the string (repair F5). -/
@@ -573,16 +586,17 @@ example :
   Resolve.Match.{matchReq, matchNPMRequirement, matchRequirement, filterMatch, npmExact, sortNPMVersions,
   sortVersions, sortBase, moveLatest}; Semver.{parseConstraint, Constraint.matchStr} as opaque functions;
   no Gen constant; tie: ops `matchreq` (oracles exact, order, perm).
-* (ii) sortVersions_ascending, matchReq_ascending_*, npm_order_as_coded, npm_order_partial, lt_iff:
-  Resolve.Match.{less, dec, goSort, insertLast, sortBase, moveLatest, splitLast, containsSub, splitOn};
+* (ii) sortVersions_ascending, matchReq_ascending_*, npm_order, npm_order_statement, matchReq_npm_ordered, lt_iff:
+  Resolve.Match.{less, dec, goSort, insertLast, sortBase, moveLatest, splitLast, Version.exactLatest, splitOn};
   Semver.{parse, vcompare} through C01's `Laws` (C01.generic, C01.pypi, C01.parse_wf, which rest on
   Gen.SemverTables via the semver model); tie: ops `sortv`, `matchreq`.
 * (iii) sortVersions_perm, matchReq_perm, perm_*: the same plus Proofs.SortUnique; tie: ops `matchreq`
   / `sortv` on permutations of one list.
-* refutations npm_order_statement_false, maven_perm_statement_false, maven_witness_unlawful: kernel
-  evaluation of the model (including Semver.parse, vcompare, parseConstraint, hence Gen.SemverTables)
-  on the witnesses; tie: the witnesses are replayed on the real code on every run (known findings).
-* classify_sound: Resolve.Match.{orderLawfulB, tagsExactB}; tie: op `classify`.
+* refutations maven_perm_statement_false, maven_witness_unlawful and the regression npm_regression
+  (fixed finding F-C12-latest-substr): kernel evaluation of the model (including Semver.parse, vcompare,
+  parseConstraint, hence Gen.SemverTables) on the witnesses; tie: the witnesses are replayed on the real
+  code on every run (known findings; a fixed one must pass).
+* classify_sound: Resolve.Match.orderLawfulB; tie: op `classify`.
 -/
 
 end DepsDev.Props.C12
